@@ -59,7 +59,8 @@ def key_pool(kind):
                 pd.Timestamp("2021-06-15 12:00:00.000001")]
     if kind == "str":
         # "1" and "True" adjacent: as parsed values (drill) they are equal in Python (1 == True)
-        return ["1", "True", "a", "1.5", "nan", "2020-01-01", " x y", "é", "a.b"]
+        # ".7": a leading dot (a hidden directory, a relative-path marker)
+        return ["1", "True", "a", "1.5", "nan", "2020-01-01", " x y", "é", "a.b", ".7"]
     if kind in ("cat_str", "cat_rev"):
         return ["u", "v", "w"]
     if kind == "cat_int":
